@@ -726,7 +726,11 @@ func (e *Env) callSpec(sf *SpecFun, args []TVal) TVal {
 	}
 	var ts []string
 	for _, hs := range cs.heaps {
-		ts = append(ts, e.heap(hs))
+		if strings.HasPrefix(hs, "old:") {
+			ts = append(ts, e.inOld().heap(hs[4:]))
+		} else {
+			ts = append(ts, e.heap(hs))
+		}
 	}
 	for i, a := range args {
 		if a.ty.sort == "Nil" {
